@@ -186,8 +186,28 @@ func GenC10(r *detsim.Rand, tier string, forceShape string) *Plan {
 			shape = "large"
 		}
 	}
+	if forceShape == "" && r.Chance(1, 60) {
+		shape = "huge"
+	}
 	p.Shape = shape
 	pyields := r.Chance(1, 2)
+	if shape == "huge" {
+		// a cache as large as the library's default one, full from the start; clients only load, update existing keys,
+		// ask for Len and Dump: every sequential state then holds each key exactly once
+		p.Cap = []int{256, 300, 512, 700}[r.Intn(4)]
+		p.NKeys = p.Cap
+		p.MixedKeys = false
+		nc := 2 + r.Intn(4)
+		tot := 0
+		for c := 0; c < nc; c++ {
+			n := 3 + r.Intn(6)
+			tot += n
+			p.Clients = append(p.Clients, genOps(r, c, n, p.NKeys, mix{store: 3, load: 4, ln: 1, dump: 4}, false))
+		}
+		p.Cfg = genCfg(r, nc, tot*8, false)
+		p.Cfg.StepCap = 2000000
+		return p
+	}
 	if shape == "small" {
 		nc := 2 + r.Intn(3)
 		p.Cap = r.Intn(4)
@@ -259,17 +279,51 @@ func (s sysSpace) size() uint64 {
 	return per * uint64(s.MaxCap+1)
 }
 
+// fillCaps: capacities around powers of two up to well beyond the library's default; each gets one "fill" history
+// (distinct keys stored until the cache has overflowed, Len after every store, every key loaded at the end).
+var fillCaps = []int{255, 256, 257, 511, 512, 513, 1023, 1025, 4096, 4097, 32768, 65535, 65536, 65537, 70000, 131073}
+
+func fillCases(tier string) int {
+	if tier == "thorough" {
+		return len(fillCaps)
+	}
+	return len(fillCaps) // cheap enough for every run: about a million operations in total
+}
+
 // SysC09Total is the number of systematic single-client histories of a tier.
 func SysC09Total(tier string) uint64 {
 	var n uint64
 	for _, s := range sysSpaces(tier) {
 		n += s.size()
 	}
-	return n
+	return n + uint64(fillCases(tier))
+}
+
+// fillPlan: capacity c, c+c/8+3 distinct keys (c+3 for the big ones: the cache finds the key of an evicted entry by a
+// scan of its whole index, which the simulator additionally puts into a canonical order - many evictions on a big cache cost minutes).
+func fillPlan(c int) *Plan {
+	n := c + c/8 + 3
+	if c > 1100 {
+		n = c + 3
+	}
+	p := &Plan{Prop: "C09", Shape: "fill", Cap: c, NKeys: n, Callback: true, Sys: true}
+	p.Cfg = simsync.Config{Policy: simsync.PolicyUniform, StallTask: -1, Pool: simsync.PoolLIFO, StepCap: 50000000}
+	return p
 }
 
 // SysC09 returns the n-th systematic history (n < SysC09Total).
 func SysC09(tier string, n uint64) *Plan {
+	// the expensive fill cases sit at the start of each of 16 equal shares (the driver gives every worker one share)
+	total, fc := SysC09Total(tier), uint64(fillCases(tier))
+	stride := (total + 15) / 16
+	if n%stride == 0 && n/stride < fc {
+		return fillPlan(fillCaps[n/stride])
+	}
+	before := (n + stride - 1) / stride // fill positions below n
+	if before > fc {
+		before = fc
+	}
+	n -= before
 	for _, s := range sysSpaces(tier) {
 		if n >= s.size() {
 			n -= s.size()
